@@ -1058,7 +1058,7 @@ K.from_py_const = _from_py_const
 
 BUILTINS = {'len', 'isinstance', 'list', 'tuple', 'set', 'dict', 'sorted', 'enumerate',
             'callable', 'bool', 'str', 'repr', 'getattr', 'hasattr', 'int', 'zip',
-            'reversed', 'all', 'any', 'super', 'OrderedDict', 'iter', 'type', 'min', 'max', 'issubclass'}
+            'reversed', 'all', 'any', 'super', 'OrderedDict', 'iter', 'type', 'min', 'max', 'issubclass', 'setattr'}
 SPEC_BUILTINS = {'old', 'implies', 'iff', 'forall', 'exists', 'result', 'ite', 'dtype_is',
                  'raised', 'fresh_ref', 'range', 'live', 'key_at', 'log_len', 'distinct',
                  'unchanged', 'const_seq', 'allocated', 'exc_attr', 'has_exc_attr', '_', 'text_type', 'fun', 'index_in', 'last_sorted', 'use_lemma', 'src_index', 'dst_index', 'same', 'to_str', 'sel', 'is_none', 'some', 'truthy'}
